@@ -99,6 +99,8 @@ struct Global {
     void (*end_cb[8])(); int n_end_cb;
     volatile int done;
     int max_threads_seen;
+    bool soft; char soft_cls[160]; char soft_msg[1024];   // first soft failure of the run (run continues, reported at its end)
+    bool batch_mode; u64 soft_total;
 };
 extern Global G;
 extern __thread SimThread *tl_self;
